@@ -176,32 +176,58 @@ DESIGN_DEPTH = {"MC_Route": (5, 6), "MC_Session": (5, 7), "MC_Qos": (6, 8)}
 
 
 def design_check(ctx, mc, maxhist):
-    """(A) TLC checks the design model exhaustively for the bounded configuration; returns (distinct, generated)"""
-    import re
+    """(A) TLC checks the design model exhaustively for the bounded configuration; returns (distinct, generated).
+
+    The result depends only on the specification files, not on the repository under test, so it is cached under
+    .work/_design (key: hash of the spec files + configuration + bound); a fresh restore recomputes it once and the
+    checks that share a configuration (C03/C06, C08..C12, C14..C16) reuse it.  A concurrent run of the same key waits."""
+    import re, hashlib, fcntl
     cfg = open(os.path.join(VERIF, "spec", mc + ".cfg")).read()
     cfg = re.sub(r"MaxHist = \d+", "MaxHist = %d" % maxhist, cfg)
-    d = ctx.path("tlc", "design_" + mc, "x")[:-2]
-    shutil.rmtree(d, ignore_errors=True)
-    os.makedirs(d)
-    for fn in ("MqttBroker.tla", "MC_Broker.tla", "BrokerOps.tla", "MqttTopics.tla"):
-        shutil.copy(os.path.join(VERIF, "spec", fn), d)
-    open(os.path.join(d, "mc.cfg"), "w").write(cfg)
-    args = ["java", "-XX:+UseParallelGC", "-Xss64m", "-Xmx12g", "-cp", "/opt/veriftools/tla/tla2tools.jar:/opt/veriftools/tla/CommunityModules-deps.jar",
-            "tlc2.TLC", "-metadir", os.path.join(d, "_meta"), "-config", "mc.cfg", "-workers", str(min(16, os.cpu_count() or 8)), "-noGenerateSpecTE", "MC_Broker.tla"]
-    t0 = time.time()
+    files = ("MqttBroker.tla", "MC_Broker.tla", "BrokerOps.tla", "MqttTopics.tla")
+    hh = hashlib.sha1(cfg.encode())
+    for fn in files:
+        hh.update(open(os.path.join(VERIF, "spec", fn), "rb").read())
+    key = "%s_%d_%s" % (mc, maxhist, hh.hexdigest()[:12])
+    cdir = os.path.join(VERIF, ".work", "_design")
+    os.makedirs(cdir, exist_ok=True)
+    cfile = os.path.join(cdir, key + ".json")
+    lock = open(os.path.join(cdir, key + ".lock"), "w")
+    fcntl.flock(lock, fcntl.LOCK_EX)
     try:
-        r = subprocess.run(args, cwd=d, capture_output=True, text=True, timeout=900 if ctx.quick else 5400)
-    except subprocess.TimeoutExpired:
-        raise Inconclusive("TLC timeout on design model %s" % mc)
-    out = r.stdout + r.stderr
-    m = re.search(r"(\d+) states generated, (\d+) distinct states found", out)
-    if "No error has been found" not in out or not m:
-        sys.stderr.write(out[-3000:])
-        raise Inconclusive("design model %s: TLC did not complete cleanly (a property of the SPECIFICATION failed or TLC crashed)" % mc)
-    shutil.rmtree(d, ignore_errors=True)
-    ctx.log("design model %s (MaxHist=%d): %s distinct / %s generated states, properties %s hold (%.1fs)" %
-            (mc, maxhist, m.group(2), m.group(1), MODEL_PROPS.get(mc, ""), time.time() - t0))
-    return int(m.group(2)), int(m.group(1))
+        if os.path.exists(cfile) and not os.environ.get("VERIF_NO_DESIGN_CACHE"):
+            c = json.load(open(cfile))
+            ctx.log("design model %s (MaxHist=%d): %s distinct / %s generated states, properties %s hold (TLC result of %.0fs reused: same specification files)" %
+                    (mc, maxhist, c["distinct"], c["generated"], MODEL_PROPS.get(mc, ""), c["wall"]))
+            return c["distinct"], c["generated"]
+        d = os.path.join(cdir, key + ".run")
+        shutil.rmtree(d, ignore_errors=True)
+        os.makedirs(os.path.join(d, "_jtmp"))
+        for fn in files:
+            shutil.copy(os.path.join(VERIF, "spec", fn), d)
+        open(os.path.join(d, "mc.cfg"), "w").write(cfg)
+        args = ["java", "-XX:+UseParallelGC", "-Xss64m", "-Xmx12g", "-Djava.io.tmpdir=" + os.path.join(d, "_jtmp"),
+                "-cp", "/opt/veriftools/tla/tla2tools.jar:/opt/veriftools/tla/CommunityModules-deps.jar",
+                "tlc2.TLC", "-metadir", os.path.join(d, "_meta"), "-config", "mc.cfg", "-workers", str(min(16, os.cpu_count() or 8)), "-noGenerateSpecTE", "MC_Broker.tla"]
+        t0 = time.time()
+        try:
+            r = subprocess.run(args, cwd=d, capture_output=True, text=True, timeout=1800 if ctx.quick else 7200)
+        except subprocess.TimeoutExpired:
+            shutil.rmtree(d, ignore_errors=True)
+            raise Inconclusive("TLC timeout on design model %s" % mc)
+        out = r.stdout + r.stderr
+        shutil.rmtree(d, ignore_errors=True)
+        m = re.search(r"(\d+) states generated, (\d+) distinct states found", out)
+        if "No error has been found" not in out or not m:
+            sys.stderr.write(out[-3000:])
+            raise Inconclusive("design model %s: TLC did not complete cleanly (a property of the SPECIFICATION failed or TLC crashed)" % mc)
+        json.dump({"distinct": int(m.group(2)), "generated": int(m.group(1)), "wall": time.time() - t0}, open(cfile, "w"))
+        ctx.log("design model %s (MaxHist=%d): %s distinct / %s generated states, properties %s hold (%.1fs)" %
+                (mc, maxhist, m.group(2), m.group(1), MODEL_PROPS.get(mc, ""), time.time() - t0))
+        return int(m.group(2)), int(m.group(1))
+    finally:
+        fcntl.flock(lock, fcntl.LOCK_UN)
+        lock.close()
 
 
 def model_to_ops(hist, observer=False):
@@ -429,6 +455,18 @@ def session_check(ctx):
                    traces_validated_against_impl=len(traces), evaluations=lines, distinct_nontrivial=len(nt),
                    rule="seeded random session histories (profile %s: connects incl. invalid/unauthorised ones, takeovers, disconnect kinds, wills with delays, housekeeping at virtual times) executed on the real broker; every step judged by TLC with Enforce={%s}" % (pid, pid),
                    samples=sample_ops(traces), complaints=len(comp))
+    # schedules of the connection life cycle (spec/Attach.tla): interleavings of one connection's attach/teardown with
+    # another connection of the same id, publishers and the housekeeping tick, forced at the verifAt schedule points
+    from families import attach
+    a = attach.attach_part(ctx, pid)
+    ctx.cov["traces_validated_against_impl"] += a["schedules"]
+    ctx.cov["evaluations"] += a["steps"]
+    ctx.cov["distinct_nontrivial"] += a["windows"]
+    ctx.cov["rule"] += ("; PLUS connection life-cycle schedules: Attach.tla (reference version model-checked, %d distinct states; deviations of the code "
+                        "refuted: %s); %d schedules (witnesses + tlc -simulate behaviours of the model of the code) forced on the real broker at the "
+                        "verifAt schedule points, %d steps, each followed by the model (projection compared) and judged by the %s rules of TraceAttach.tla"
+                        % (a["design_states"], a["refuted"], a["schedules"], a["steps"], pid))
+    ctx.cov["attach_rules_raised"] = a["rules"]
 
 
 MIXED = {
@@ -564,7 +602,13 @@ def replay_one(ctx):
 
 def _with_replay(fn):
     def run(ctx):
-        return replay_one(ctx) if ctx.replay else fn(ctx)
+        if ctx.replay:
+            v = json.load(open(ctx.replay))
+            if isinstance(v.get("replay"), dict) and v["replay"].get("kind") == "attach":
+                from families import attach
+                return attach.replay_attach(ctx)
+            return replay_one(ctx)
+        return fn(ctx)
     return run
 
 
